@@ -484,3 +484,7 @@ def b_native(B):
     xs2[-20:] *= 7.0
     y2 = V.destripe(xs2, 30000, h=h, channel_labels=labels)
     B.case("label3_excluded", bool(np.allclose(y1[:-20], y2[:-20], atol=1e-6)), detail="changing channels labelled outside the brain changed the others")
+
+
+from pyvc.api import depends  # noqa: E402
+depends(PROPERTY, "C08", ["adc_tables"])      # "recorded with each channel's ADC sampling delay": the delay table destripe re-aligns with (trace_header -> adc_shifts), every channel of every generation
